@@ -61,6 +61,13 @@ def rename_module(src, suffix):
             if not locs:
                 return
 
+            order = sorted(locs)
+
+            def newname(old_):
+                if suffix == "OPAQUE":
+                    return f"zq{order.index(old_)}" if old_ in order else old_ + "_x"
+                return old_ + suffix
+
             def walk(n, top=True):
                 if not top and isinstance(n, (ast.FunctionDef, ast.AsyncFunctionDef, ast.Lambda, ast.ClassDef)):
                     # evaluated in the enclosing scope: decorators, defaults, bases
@@ -75,7 +82,7 @@ def rename_module(src, suffix):
                         walk(o, False)
                     return
                 if isinstance(n, ast.Name) and n.id in locs:
-                    edits.append((n.lineno, n.col_offset, n.id, n.id + suffix))
+                    edits.append((n.lineno, n.col_offset, n.id, newname(n.id)))
                 for c in ast.iter_child_nodes(n):
                     walk(c, False)
 
